@@ -18,8 +18,8 @@ pub fn monitor_c05() -> Monitor {
 }
 pub fn monitor_c06() -> Monitor {
   Monitor { id: "C06",
-    rule: "same cones as C05 (same generator and seeds). For every returned cell: if flagged full, its 4 reference vertices and 12 reference edge points are within r(1+1e-9)+1e-14 of the centre; its centre is within r + 2 x 1.08/nside(depth of the cell); r >= pi yields exactly the 12 full base cells; no four full siblings; well formed (C09 walker). Non-trivial as in C05, plus cones returning at least one full cell.",
-    assumptions: &["reference cell geometry (vertices / edge points)", "1.08/nside bounds the largest centre-to-vertex distance of a depth (measured 1.0686)"],
+    rule: "same cones as C05 (same generator and seeds). For every returned cell: if flagged full, its 4 reference vertices and 12 reference edge points are within r(1+1e-9)+1e-14 of the centre; its centre is within r + 2 x the largest centre-to-vertex distance of the depth of the cell (measured per depth); r >= pi yields exactly the 12 full base cells; no four full siblings; well formed (C09 walker). Non-trivial as in C05, plus cones returning at least one full cell.",
+    assumptions: &["reference cell geometry (vertices / edge points)", "largest centre-to-vertex distance of a depth: measured exhaustively for depths 0..10 (0.8411 at depth 0 .. 1.06877/nside at depth 10), 1.0690/nside beyond (refm::cell_radius_bound)"],
     run, replay }
 }
 
